@@ -1,5 +1,8 @@
 import json,sys
-d=json.load(open('/verif/evidence/%s.json'%sys.argv[1]))
+import os
+p='/verif/out/%s.partial-evidence.json'%sys.argv[1]
+q='/verif/evidence/%s.json'%sys.argv[1]
+d=json.load(open(p if os.path.exists(p) and os.path.getmtime(p)>os.path.getmtime(q) else q))
 c=d['coverage']
 for e in (c.get('engine_errors') or []): print('ENGINE:',e[:400])
 for o in c['obligation_results']:
